@@ -1,100 +1,202 @@
 """S-TREE-OUT / S-TREE-STRUCT: operation histories on the real estimator and on the model,
 compared after every operation on the public observables (V_out) and, optionally, on the
-full private structure (V_tree)."""
+full private structure (V_tree); direct oracles for the failing-input search."""
 from __future__ import annotations
 
+import copy
 import json
 import random
 
 from core import Driver, exp_table_line, impl_out, impl_tree, StructureError
 from ops import Session, gen_history, total_rows
+from checklib import SuiteResult
 
 
-def run_history(d: Driver, hist: dict, struct: bool = True, oracles=(), per_insert: bool = False) -> dict | None:
-    """returns None when model and code agree everywhere, else a disagreement record"""
+def expand_per_insert(hist: dict) -> dict:
+    ops = []
+    for op in hist["ops"]:
+        if op["op"] == "fit" and all(len(r) == op["F"] for r in op["rows"]) and op.get("labels") is None:
+            ops.extend({**op, "rows": [r]} for r in op["rows"])
+        else:
+            ops.append(op)
+    return {**hist, "ops": ops}
+
+
+def run_history(d: Driver, hist: dict, struct: bool = True, oracles=(), stop_on_failure: bool = True):
+    """returns (disagreement | None, failures, features)"""
     d.cmd(exp_table_line(total_rows(hist) + 2))
     s = Session(d, hist["cfg"], hist["F"])
+    failures: list[dict] = []
+    feats = {"height": 0, "merged": False, "errors": 0, "ops": 0}
     m, i = s.construct()
     if m != i:
-        return {"at": "construct", "model": m, "impl": i}
+        return {"at": "construct", "what": "answer", "model": m, "impl": i}, failures, feats
     if i != "ok":
-        return None
-    ops = hist["ops"]
-    if per_insert:
-        ops = []
-        for op in hist["ops"]:
-            if op["op"] == "fit" and all(len(r) == op["F"] for r in op["rows"]):
-                ops.extend({**op, "rows": [r]} for r in op["rows"])
-            else:
-                ops.append(op)
-    for k, op in enumerate(ops):
+        return None, failures, feats
+    for k, op in enumerate(hist["ops"]):
         if op["op"] == "refine" and not s.labels_contiguous:
             continue
-        line, mans, ians = s.step(op)
-        if mans != ians:
-            return {"at": k, "what": "answer", "line": line[:2000], "model": mans, "impl": ians}
-        mo, io = d.cmd("OUT"), impl_out(s.tree)
-        if mo != io:
-            return {"at": k, "what": "V_out", "line": line[:2000], "model": mo, "impl": io}
-        if struct:
-            mt = d.cmd("TREE")
-            try:
-                it = impl_tree(s.tree)
-            except StructureError as e:
-                it = f"structure-error:{e}"
-            if mt != it:
-                return {"at": k, "what": "V_tree", "line": line[:2000], "model": mt, "impl": it}
         for orc in oracles:
-            v = orc(s, op, k)
+            if hasattr(orc, "before"):
+                orc.before(s, op, k)
+        line, mans, ians = s.step(op)
+        feats["ops"] += 1
+        if ians != "ok":
+            feats["errors"] += 1
+        dis = None
+        if mans != ians:
+            dis = {"at": k, "what": "answer", "line": line[:3000], "model": mans, "impl": ians}
+        else:
+            mo, io = d.cmd("OUT"), impl_out(s.tree)
+            if mo != io:
+                dis = {"at": k, "what": "V_out", "line": line[:3000], "model": mo[:4000], "impl": io[:4000]}
+            elif struct:
+                mt = d.cmd("TREE")
+                try:
+                    it = impl_tree(s.tree)
+                except StructureError as e:
+                    it = f"structure-error:{e}"
+                if mt != it:
+                    dis = {"at": k, "what": "V_tree", "line": line[:3000], "model": mt[:4000], "impl": it[:4000]}
+                if mt.startswith("full"):
+                    feats["height"] = max(feats["height"], int(mt.split("h=")[1].split(" ")[0]))
+            if "meta=[" in mo:
+                for seg in mo.split("meta=[")[1].split("]")[0].split(";"):
+                    if seg and seg.split(":")[0] != "1":
+                        feats["merged"] = True
+        for orc in oracles:
+            v = orc(s, op, k, ians)
             if v is not None:
-                return {"at": k, "what": "oracle", "oracle": v}
-    return None
+                failures.append({**v, "at": k})
+        if dis is not None:
+            return dis, failures, feats
+        if failures and stop_on_failure:
+            return None, failures, feats
+    return None, failures, feats
 
 
-def features(hist: dict, d: Driver) -> dict:
-    """cheap non-triviality features of the final state (from the model's dump)"""
-    t = d.cmd("TREE")
-    o = d.cmd("OUT")
-    multi = any(seg.split(":")[0] not in ("", "1") for seg in o.split("meta=[")[1].split("]")[0].split(";"))
-    return {"height": int(t.split("h=")[1].split(" ")[0]) if t.startswith("full") else 0, "merged": multi}
+def shrink(hist: dict, still_bad, budget: int = 60) -> dict:
+    """greedy delta-debugging over ops and rows"""
+    best = copy.deepcopy(hist)
+    tries = 0
 
+    def attempt(cand):
+        nonlocal best, tries
+        tries += 1
+        if tries > budget:
+            return False
+        try:
+            if still_bad(cand):
+                best = cand
+                return True
+        except Exception:  # noqa: BLE001
+            return False
+        return False
 
-def run(seed: int, n_hist: int, struct: bool = True, max_ops: int = 12, max_rows: int = 40) -> dict:
-    rng = random.Random(seed)
-    d = Driver()
-    stats = {"histories": 0, "ops": 0, "nontrivial": 0, "height_ge2": 0, "disagreement": None, "samples": []}
-    seen = set()
-    try:
-        for _ in range(n_hist):
-            hist = gen_history(rng, max_ops=max_ops, max_rows=max_rows)
-            r = run_history(d, hist, struct=struct)
-            stats["histories"] += 1
-            stats["ops"] += len(hist["ops"])
-            if r is not None:
-                stats["disagreement"] = {"hist": hist, **r}
+    changed = True
+    while changed and tries <= budget:
+        changed = False
+        for i in range(len(best["ops"]) - 1, -1, -1):
+            cand = copy.deepcopy(best)
+            del cand["ops"][i]
+            if cand["ops"] and attempt(cand):
+                changed = True
                 break
-            f = features(hist, d)
-            key = json.dumps(hist, sort_keys=True)
-            if f["merged"] and f["height"] >= 1 and key not in seen:
+        if changed:
+            continue
+        for i, op in enumerate(best["ops"]):
+            if op["op"] == "fit" and len(op["rows"]) > 1:
+                for half in (0, 1):
+                    cand = copy.deepcopy(best)
+                    rows = cand["ops"][i]["rows"]
+                    mid = len(rows) // 2
+                    cand["ops"][i]["rows"] = rows[:mid] if half == 0 else rows[mid:]
+                    if attempt(cand):
+                        changed = True
+                        break
+                if changed:
+                    break
+    return best
+
+
+def hist_key(hist: dict) -> str:
+    return json.dumps(hist, sort_keys=True, default=str)
+
+
+def run_suite(name: str, seed: int, n_hist: int, struct: bool, oracles=(), max_ops: int = 12, max_rows: int = 40,
+              per_insert_every: int = 0, gen=gen_history, gen_kw=None, corpus: list | None = None) -> SuiteResult:
+    rng = random.Random(seed)
+    res = SuiteResult(name)
+    d = Driver()
+    seen = set()
+    cnt = {"height_ge1": 0, "height_ge2": 0, "merged": 0, "errors": 0, "ops": 0, "histories": 0}
+    try:
+        hists = list(corpus or [])
+        for i in range(n_hist):
+            h = gen(rng, max_ops=max_ops, max_rows=max_rows, **(gen_kw or {}))
+            if per_insert_every and i % per_insert_every == 0:
+                h = expand_per_insert(h)
+            hists.append(h)
+        for hist in hists:
+            dis, fails, f = run_history(d, hist, struct=struct, oracles=[o() for o in oracles])
+            res.evaluations += 1
+            res.traces += 1
+            cnt["histories"] += 1
+            cnt["ops"] += f["ops"]
+            cnt["errors"] += f["errors"]
+            cnt["height_ge1"] += f["height"] >= 1
+            cnt["height_ge2"] += f["height"] >= 2
+            cnt["merged"] += bool(f["merged"])
+            key = hist_key(hist)
+            if f["merged"] and (f["height"] >= 1 or not struct) and key not in seen:
                 seen.add(key)
-                stats["nontrivial"] += 1
-            if f["height"] >= 2:
-                stats["height_ge2"] += 1
-            if len(stats["samples"]) < 2:
-                stats["samples"].append({"cfg": hist["cfg"], "F": hist["F"], "ops": [o["op"] for o in hist["ops"]]})
+                res.nontrivial += 1
+            if len(res.samples) < 2:
+                res.samples.append({"cfg": hist["cfg"], "F": hist["F"],
+                                    "ops": [o["op"] + (f"({len(o['rows'])} rows, {o.get('form')})" if o["op"] == "fit" else "")
+                                            for o in hist["ops"]]})
+            if fails:
+                def bad(c, sig=fails[0]["signature"]):
+                    d2 = Driver()
+                    try:
+                        _, fl, _ = run_history(d2, c, struct=False, oracles=[o() for o in oracles])
+                    finally:
+                        d2.close()
+                    return any(x["signature"] == sig for x in fl)
+                small = shrink(hist, bad)
+                res.failures.append({"signature": fails[0]["signature"], "what": fails[0]["what"],
+                                     "case": {"suite": name, "hist": small, "detail": fails[0].get("detail")}})
+                break
+            if dis is not None:
+                def bad2(c):
+                    d2 = Driver()
+                    try:
+                        ds, _, _ = run_history(d2, c, struct=struct)
+                    finally:
+                        d2.close()
+                    return ds is not None
+                small = shrink(hist, bad2)
+                d2 = Driver()
+                try:
+                    dis2, _, _ = run_history(d2, small, struct=struct)
+                finally:
+                    d2.close()
+                res.disagreement = {"hist": small, **(dis2 or dis)}
+                break
     finally:
         d.close()
-    return stats
+    res.counters = cnt
+    return res
 
 
 if __name__ == "__main__":
     import sys
     seed = int(sys.argv[1]) if len(sys.argv) > 1 else 0
     n = int(sys.argv[2]) if len(sys.argv) > 2 else 50
-    st = run(seed, n)
-    dis = st.pop("disagreement")
-    print(json.dumps(st)[:1000])
-    if dis:
+    r = run_suite("adhoc", seed, n, struct=True)
+    print(json.dumps(r.to_json())[:600])
+    if r.disagreement:
+        dis = r.disagreement
         print("DISAGREEMENT at", dis["at"], dis.get("what"))
         print(" line :", dis.get("line", "")[:600])
         print(" model:", dis["model"][:1500])
